@@ -211,9 +211,10 @@ Section FormulaEq.
     cbn [lhs_minus_rhs denoteX denoteP sdenote]. apply pair_eq1. feq_core.
   Qed.
 
-  Lemma feq_lin_adjoint : cdef par cross_LinearOperator /\ lhs_minus_rhs par up ux cross_LinearOperator = (ref_lin_adjoint xi gi xj gj, Equ).
+  (** LinearOperator: (xi, yi) a sample of the operator, (uj, vj) = (xj, gj) a sample of its transpose *)
+  Lemma feq_lin_adjoint : cdef par f_LinearOperator_adjoint_constraint_i_j /\ lhs_minus_rhs par up ux f_LinearOperator_adjoint_constraint_i_j = (ref_lin_adjoint xi gi xj gj, Equ).
   Proof.
-    unfold cross_LinearOperator. intros. split; [side_def|].
+    unfold f_LinearOperator_adjoint_constraint_i_j. intros. split; [side_def|].
     cbn [lhs_minus_rhs denoteX denoteP sdenote]. apply pair_eq1. feq_core.
   Qed.
 
